@@ -229,6 +229,7 @@ structure PDesc (α : Type) where
   cmds : List α
   sin : InKind
   sout : OutKind
+  errTo : Bool := false      -- `stderr_to(file)` was given: at start every command gets the shared sink
 
 /-- expressions built from commands with `|`, `Pipeline::stdin/stdout` and `from_exec_iter` -/
 inductive Expr (α : Type)
@@ -237,6 +238,7 @@ inductive Expr (α : Type)
   | fromIter (l : List α)
   | setIn (e : Expr α) (k : InKind)
   | setOut (e : Expr α) (k : OutKind)
+  | setErr (e : Expr α)        -- `Pipeline::stderr_to(file)`
 
 inductive Val (α : Type)
   | exec (a : α)
@@ -253,6 +255,9 @@ def eval {α : Type} : Expr α → Option (Val α)
   | .setOut e k => match eval e with
     | some (.pipeline p) => some (.pipeline { p with sout := k })
     | _ => none
+  | .setErr e => match eval e with
+    | some (.pipeline p) => some (.pipeline { p with errTo := true })
+    | _ => none
   | .or l r => match eval l, eval r with
     | some (.exec a), some (.exec b) => some (.pipeline { cmds := [a, b], sin := .inherit, sout := .inherit })
     | some (.pipeline p), some (.exec b) => some (.pipeline { p with cmds := p.cmds ++ [b] })
@@ -265,6 +270,7 @@ def leaves {α : Type} : Expr α → List α
   | .fromIter l => l
   | .setIn e _ => leaves e
   | .setOut e _ => leaves e
+  | .setErr e => leaves e
   | .or l r => leaves l ++ leaves r
 
 /-! ### Data flow through the started commands -/
